@@ -677,6 +677,10 @@ func workingGoroutines() int {
 			if bytes.Contains(ln, []byte("(*clientRoutinePool).add.func1")) || bytes.Contains(ln, []byte("(*Client).run(")) {
 				continue
 			}
+			// the user's own goroutine inside Close (the harness' timer) is not a goroutine of the client
+			if bytes.Contains(ln, []byte("(*Client).Close(")) {
+				continue
+			}
 			deep = true
 		}
 		if deep {
